@@ -66,6 +66,9 @@ func CoreCorpus(g *gen.Gen, n int) []Item {
 		items = append(items, mkItem(cs, ci))
 	}
 	if n >= 2000 {
+		for ci, cs := range g.SearchCatalogue([]string{"name", "address.city"}) {
+			items = append(items, mkItem(cs, ci))
+		}
 		for ci, cs := range g.KeywordCatalogue() {
 			items = append(items, mkItem(cs, ci))
 		}
